@@ -396,6 +396,7 @@ type TypeOpts struct {
 	NoTime     bool
 	NoMaps     bool
 	AllKinds   bool // also kinds outside the supported domain (C05 / C15)
+	DupNames   bool // now and then two fields of one struct resolve to the same schema name (C15: cannot be expressed)
 	// Quarantine switches (features removed from the domain while an open finding covers them)
 	NoPtrPtr bool
 }
@@ -488,7 +489,52 @@ func genStruct(r *rand.Rand, o TypeOpts, depth int) *T {
 		}
 		t.Fields = append(t.Fields, f)
 	}
+	if o.DupNames && r.IntN(8) == 0 {
+		var live []*F
+		for _, f := range t.Fields {
+			if !f.Excluded() {
+				live = append(live, f)
+			}
+		}
+		if len(live) >= 2 {
+			a, b := r.IntN(len(live)), r.IntN(len(live))
+			if a != b {
+				live[b].JSON = live[a].AvroName()
+			}
+		}
+	}
 	return t
+}
+
+// HasDupNames: some struct in the (non-excluded) type tree has two fields of one schema name.
+func (t *T) HasDupNames() bool {
+	found := false
+	seen := map[*T]bool{}
+	var walk func(t *T)
+	walk = func(t *T) {
+		if t == nil || seen[t] || found {
+			return
+		}
+		seen[t] = true
+		if t.K == KStruct {
+			names := map[string]bool{}
+			for _, f := range t.Fields {
+				if f.Excluded() {
+					continue
+				}
+				if names[f.AvroName()] {
+					found = true
+					return
+				}
+				names[f.AvroName()] = true
+				walk(f.T)
+			}
+			return
+		}
+		walk(t.Elem)
+	}
+	walk(t)
+	return found
 }
 
 func genType(r *rand.Rand, o TypeOpts, depth int) *T {
